@@ -10,18 +10,25 @@ package wallet
 //verif:property C24
 //verif:bound single-transaction blocks built by the real types.NewTx / MapTx: one input (spend / veto / coinbase) and 1 output (quick) or 2 outputs (thorough; first: original or vote; second: the other kind, paying the wallet); amounts arbitrary 64-bit (0 included), vote keys 2 arbitrary bytes; program menu {wallet P2WPKH, P2WPKH the wallet may or may not own (arbitrary), non-segwit contract program, wallet P2WSH (32-byte witness program, multi-signature account), wallet "straightforward" OP_TRUE program}: the input takes any of the 5, the first output the input's program or the one two places further (every program occurs in both roles; the wallet treats inputs and outputs independently); spends and first original outputs carry a non-BTM asset, the rest BTM; block height arbitrary below 2^62
 //verif:bound chained blocks (VerifC24Chain): tx1 = [spend of a pre-existing output] -> [O1 original or vote], tx2 = [spend / veto of O1] -> [O2 original], both built by the real types.NewTx; O1's program any of the 5 (one obligation each), the pre-existing output and O2 pay the next / third-next program of the menu; three arbitrary 64-bit amounts (0 included), arbitrary vote key and height
+//verif:bound block level (VerifC24Blocks): the real Wallet.AttachBlock / Wallet.DetachBlock from an arbitrary status record (WorkHeight <= BestHeight < 2^62, arbitrary work / best hashes) on a block of one transaction [spend of a wallet output] -> [original output paying the wallet, arbitrary amount]: AttachBlock of a block with arbitrary height whose parent hash differs from the work hash, AttachBlock of the child of the work block (height WorkHeight+1), DetachBlock of the best block (height BestHeight >= 1, arbitrary parent hash)
 //verif:bound wallet table before the block: a record for the spent output exists iff the wallet owns its program (as a rescan would have it), with arbitrary bookkeeping fields
 //verif:assume vote outputs and veto inputs carry BTM (consensus rule); the spent output is not an output of the spending transaction or of a later transaction (ids of the pre-existing output, O1 and O2 differ); ids are SHA3 hashes modelled as an uninterpreted collision-free function
 //verif:assume solver side: json.Marshal / json.Unmarshal of account.UTXO and account.CtrlProgram are replaced by a handle table (value semantics, lossless), bc.Hash.String (protobuf text) by an injective byte encoding; the native replay uses the real ones
-//verif:outside blocks of more than two transactions or with more than one input per transaction, walletUpdater goroutine and its reorganisation walk, account manager, GetAccountUtxos iteration, transaction index, ValidHeight of the records (property C25)
+//verif:outside blocks of more than two transactions or with more than one input per transaction, walletUpdater goroutine and its reorganisation walk (which blocks it hands to AttachBlock / DetachBlock), the transaction index and recovery scan inside AttachBlock / DetachBlock, account manager, GetAccountUtxos iteration, transaction index, ValidHeight of the records (property C25)
 //verif:override encoding/json.Marshal -> verifC24Marshal
 //verif:override encoding/json.Unmarshal -> verifC24Unmarshal
 //verif:override (*github.com/bytom/bytom/protocol/bc.Hash).String -> verifC24HashString
+//verif:assume VerifC24Blocks: the transaction index kept next to the UTXO table is cut out of Wallet.AttachBlock / DetachBlock: indexTransactions and deleteTransactions are replaced by no-ops for the solver and for the native replay (nativecut); they write other key ranges (annotated txs, tx index) and never touch UTXO records or the status; the recovery manager is a real one that is not started (FilterRecoveryTxs returns at once); json of the status record written by commitWalletInfo is an opaque constant for the solver (the status is observed in memory)
+//verif:override (*github.com/bytom/bytom/wallet.Wallet).indexTransactions -> verifC24IndexTxs
+//verif:nativecut indexer.go indexTransactions -> verifC24IndexTxs
+//verif:override (*github.com/bytom/bytom/wallet.Wallet).deleteTransactions -> verifC24DeleteTxs
+//verif:nativecut indexer.go deleteTransactions -> verifC24DeleteTxs
 //verif:obligation fn=VerifC24AttachDetach args=0,0,1;1,1,1;2,0,1 validate=10 secs=1800
 //verif:obligation fn=VerifC24AttachDetach args=0,1,1;1,0,1;2,1,1 secs=1800
 //verif:obligation fn=VerifC24AttachDetach args=0,0,2;0,1,2;1,0,2;1,1,2;2,0,2;2,1,2 tier=thorough secs=3000
 //verif:obligation fn=VerifC24Chain args=0,0;1,3 validate=24 secs=1800
 //verif:obligation fn=VerifC24Chain args=0,1;0,2;0,3;0,4;1,0;1,1;1,2;1,4 secs=1800
+//verif:obligation fn=VerifC24Blocks args=0;1;2 validate=30 secs=1800
 
 import (
 	"bytes"
@@ -51,6 +58,8 @@ func verifC24Marshal(v interface{}) ([]byte, error) {
 	case *account.CtrlProgram:
 		verifC24CPs = append(verifC24CPs, *x)
 		return []byte{0xc2, 2, byte(len(verifC24CPs) - 1)}, nil
+	case StatusInfo:
+		return []byte{0xc2, 3, 0}, nil // wallet status record: written by commitWalletInfo, observed in memory here
 	}
 	panic("verif: json.Marshal stub: unexpected type")
 }
@@ -377,4 +386,117 @@ func VerifC24Chain(kind1 int, q int) {
 	verifAssert(!verifC24Get(db, id1).present, "detach-removes-output-created-and-spent-in-the-block")
 	verifAssert(!verifC24Get(db, id2).present, "detach-removes-created-outputs")
 	verifReach("VerifC24Chain:end")
+}
+
+// ---- Wallet.AttachBlock / Wallet.DetachBlock ------------------------------
+
+func verifC24IndexTxs(w *Wallet, batch dbm.Batch, b *types.Block) error { return nil }
+func verifC24DeleteTxs(w *Wallet, batch dbm.Batch, height uint64)       {}
+
+func verifC24Hash(name string) bc.Hash {
+	return bc.Hash{V0: verifU64(name + ".v0"), V1: verifU64(name + ".v1")}
+}
+
+// VerifC24Blocks runs the real Wallet.AttachBlock / Wallet.DetachBlock from an
+// arbitrary status record (WorkHeight <= BestHeight, arbitrary hashes) on a
+// block of one transaction [spend of a wallet output] -> [original output
+// paying the wallet, arbitrary amount]. mode 0: AttachBlock of a block whose
+// parent is not the work block (any height); mode 1: AttachBlock of the child
+// of the work block; mode 2: DetachBlock of the best block.
+func VerifC24Blocks(mode int) {
+	db := dbm.NewMemDB()
+	verifC24Utxos, verifC24CPs = nil, nil
+	verifC24Own(db, verifC24ProgA, "acc-a")
+	w := &Wallet{DB: db, RecoveryMgr: &recoveryManager{}}
+	st := StatusInfo{Version: 1, WorkHeight: verifU64("workHeight"), WorkHash: verifC24Hash("workHash"), BestHeight: verifU64("bestHeight"), BestHash: verifC24Hash("bestHash")}
+	verifAssume(st.WorkHeight <= st.BestHeight && st.BestHeight < 1<<62)
+	w.status = st
+
+	btm := *consensus.BTMAssetID
+	inAmount, outAmount := verifU64("inAmount"), verifU64("outAmount")
+	in := types.NewSpendInput(nil, bc.Hash{V0: 1}, btm, inAmount, 1, verifC24ProgA, nil)
+	out := types.NewOriginalTxOutput(btm, outAmount, verifC24ProgA, nil)
+	tx := types.NewTx(types.TxData{Version: 1, Inputs: []*types.TxInput{in}, Outputs: []*types.TxOutput{out}})
+	prevID, outID := tx.SpentOutputIDs[0], *tx.OutputID(0)
+	verifAssume(prevID != outID)
+
+	block := &types.Block{BlockHeader: types.BlockHeader{Version: 1, Timestamp: 7}, Transactions: []*types.Tx{tx}}
+	switch mode {
+	case 0:
+		block.Height = verifU64("blockHeight")
+		block.PreviousBlockHash = verifC24Hash("parent")
+		verifAssume(block.PreviousBlockHash != st.WorkHash)
+	case 1:
+		block.Height = st.WorkHeight + 1
+		block.PreviousBlockHash = st.WorkHash
+	default:
+		verifAssume(st.BestHeight >= 1)
+		block.Height = st.BestHeight
+		block.PreviousBlockHash = verifC24Hash("parent")
+	}
+
+	// wallet table before the call: the spent output is the wallet's; for a
+	// detach the block has been attached before
+	u := &account.UTXO{OutputID: prevID, SourceID: bc.Hash{V0: 1}, AssetID: btm, Amount: inAmount, SourcePos: 1,
+		ControlProgram: verifC24ProgA, AccountID: "acc-a", Address: "addr-acc-a", ControlProgramIndex: 5}
+	data, _ := json.Marshal(u)
+	db.Set(account.StandardUTXOKey(prevID), data)
+	if mode == 2 {
+		batch := db.NewBatch()
+		w.attachUtxos(batch, block)
+		batch.Write()
+	}
+	before := [2]bool{verifC24Get(db, prevID).present, verifC24Get(db, outID).present}
+
+	var err error
+	if mode == 2 {
+		err = w.DetachBlock(block)
+	} else {
+		err = w.AttachBlock(block)
+	}
+	verifAssert(err == nil, "block-call-succeeds")
+	after := [2]bool{verifC24Get(db, prevID).present, verifC24Get(db, outID).present}
+	now := w.status
+	verifObserveU64("workHeight", now.WorkHeight)
+	verifObserveU64("bestHeight", now.BestHeight)
+	verifObserveBool("spentRecord", after[0])
+	verifObserveBool("createdRecord", after[1])
+
+	switch mode {
+	case 0:
+		// (a) a block that does not extend the work block changes nothing
+		verifAssert(after[0] == before[0], "stale-attach-deletes-nothing")
+		verifAssert(after[1] == before[1], "stale-attach-records-nothing")
+		verifAssert(now == st, "stale-attach-keeps-status")
+		verifReach("VerifC24Blocks:stale-attach")
+	case 1:
+		// (b) the child of the work block
+		verifAssert(!after[0], "attach-removes-spent-output")
+		verifAssert(after[1] == (outAmount != 0), "attach-records-exactly-the-wallet-outputs")
+		verifAssert(now.WorkHeight == block.Height, "attach-moves-work-to-the-block")
+		verifAssert(now.WorkHash == block.Hash(), "attach-moves-work-to-the-block")
+		if block.Height >= st.BestHeight {
+			verifAssert(now.BestHeight == block.Height, "attach-moves-best-only-forward")
+			verifAssert(now.BestHash == block.Hash(), "attach-moves-best-only-forward")
+		} else {
+			verifAssert(now.BestHeight == st.BestHeight, "attach-moves-best-only-forward")
+			verifAssert(now.BestHash == st.BestHash, "attach-moves-best-only-forward")
+		}
+		verifReach("VerifC24Blocks:child-attach")
+	default:
+		// (c) detach of the best block
+		verifAssert(after[0], "detach-restores-exactly-the-wallet-outputs")
+		verifAssert(!after[1], "detach-removes-created-outputs")
+		verifAssert(now.BestHeight == block.Height-1, "detach-sets-best-to-the-parent")
+		verifAssert(now.BestHash == block.PreviousBlockHash, "detach-sets-best-to-the-parent")
+		verifAssert(now.WorkHeight <= st.WorkHeight, "detach-never-moves-work-forward")
+		if st.WorkHeight > now.BestHeight {
+			verifAssert(now.WorkHeight == now.BestHeight, "detach-pulls-work-back-to-best")
+			verifAssert(now.WorkHash == now.BestHash, "detach-pulls-work-back-to-best")
+		} else {
+			verifAssert(now.WorkHeight == st.WorkHeight, "detach-keeps-work-below-best")
+			verifAssert(now.WorkHash == st.WorkHash, "detach-keeps-work-below-best")
+		}
+		verifReach("VerifC24Blocks:detach")
+	}
 }
